@@ -548,9 +548,9 @@ def malformed_oracle(spec):
 
 
 SUBS = [
-    Sub('history', None, history_replay, {'quick': 50, 'thorough': 800}, {'quick': 10, 'thorough': 16}, kind='machine',
+    Sub('history', None, history_replay, {'quick': 90, 'thorough': 800}, {'quick': 10, 'thorough': 16}, kind='machine',
         machine=machine, steps={'quick': 25, 'thorough': 40}, doc='well-formedness invariant over operation histories'),
-    Sub('closure', closure_case, closure_oracle, {'quick': 300, 'thorough': 5000}, {'quick': 3, 'thorough': 8},
+    Sub('closure', closure_case, closure_oracle, {'quick': 600, 'thorough': 5000}, {'quick': 3, 'thorough': 8},
         doc='arithmetic closure table Obs/CObs/int/float/complex, both orders'),
     Sub('malformed', malformed_case, malformed_oracle, {'quick': 300, 'thorough': 4000}, {'quick': 2, 'thorough': 4},
         doc='malformed construction requests must raise'),
